@@ -78,6 +78,11 @@ func (c *qCond) sql() string {
 				sb.WriteString(" AND ")
 			}
 		}
+		if a.op == "" {
+			// a bare boolean operand (TRUE, FALSE)
+			sb.WriteString(a.l.sql())
+			continue
+		}
 		sb.WriteString(a.l.sql() + " " + a.op + " " + a.r.sql())
 	}
 	return sb.String()
@@ -314,13 +319,22 @@ func evalCond(c *qCond, fields []rField, row []any) (bool, string) {
 		if err != "" {
 			return false, err
 		}
-		r, err := evalExpr(a.r, fields, row)
-		if err != "" {
-			return false, err
-		}
-		v, err := cmpVals(l, r, a.op)
-		if err != "" {
-			return false, err
+		var v bool
+		if a.op == "" {
+			b, isBool := l.(bool)
+			if !isBool {
+				return false, "type mismatch"
+			}
+			v = b
+		} else {
+			r, err := evalExpr(a.r, fields, row)
+			if err != "" {
+				return false, err
+			}
+			v, err = cmpVals(l, r, a.op)
+			if err != "" {
+				return false, err
+			}
 		}
 		term = term && v
 		if i == len(c.atoms)-1 || c.ors[i] {
